@@ -93,7 +93,7 @@ ALLOFF = [(0, 0, None), (100, 0, None), (100, 100.5, None), (0, 100, None)]
 
 TRIE_SHAPES = ["tri", "cubic", "quad", "mixed", "two", "offstart"]
 CUBIC_SHAPES = {"cubic", "mixed", "offstart"}
-VARIANTS = ["pure", "mixed", "shared", "three", "overmixed"]
+VARIANTS = ["pure", "mixed", "shared", "three", "overmixed", "multi"]
 
 
 # ---- alphabet: fonts ------------------------------------------------------------------------
@@ -105,6 +105,7 @@ def trie_glyphs(shapes, variant, palette, depth):
     shared     node = [parent x T, root x shift]                     (two components, shared base)
     three      node = own contour + [parent x T, root x flip, root x flip]   (3 components + contour)
     overmixed  pure composites over a root that is itself a mixed glyph
+    multi      node = [parent x T, parent x shift, parent x shift']  (the same sub-tree reached repeatedly)
     """
     glyphs = {".notdef": NOTDEF}
     for si, shape in enumerate(shapes):
@@ -128,6 +129,9 @@ def trie_glyphs(shapes, variant, palette, depth):
                         g["contours"] = [SMALLBOX]
                     elif variant == "shared":
                         g["components"] = g["components"] + [(root, (1, 0, 0, 1, 200.5, 0.5))]
+                    elif variant == "multi":
+                        g["components"] = g["components"] + [(parent, (1, 0, 0, 1, 200.5, 0.5)),
+                                                             (parent, (1, 0, 0, 1, -30, 40))]
                     elif variant == "three":
                         g["contours"] = [SMALLBOX]
                         g["components"] = g["components"] + [(root, (-1, 0, 0, 1, 300, 0)),
@@ -588,7 +592,7 @@ class C02(Property):
         if tier == "quick":
             return {"depth": 0, "tier_name": "quick", "trie_depth": 2, "palette": B.QUICK_TRANSFORMS,
                     "trie_errupm": [[e, u] for e in ERRS for u in UPMS],
-                    "deep": {"d": 3, "shapes": ["tri", "cubic"], "variants": ["pure", "shared", "overmixed", "three"],
+                    "deep": {"d": 3, "shapes": ["tri", "cubic"], "variants": ["pure", "shared", "overmixed", "three", "multi"],
                              "errupm": [[None, 1000]]},
                     "dev_singles": ["tri", "cubic", "quad"], "dev_pairs": [], "defcon": "default-only",
                     "libkey": {"flat": [False], "drop": [False],
@@ -678,7 +682,7 @@ class C02(Property):
             if c["part"] != "trie":
                 return 0
             n = len(c["shapes"]) * len(c["palette"]) ** c["d"]
-            return n * {"three": 8, "mixed": 4, "shared": 2}.get(c["variant"], 1)
+            return n * {"three": 8, "mixed": 4, "shared": 2, "multi": 3}.get(c["variant"], 1)
         out.sort(key=lambda h: -cost(h))
         return out
 
